@@ -156,9 +156,21 @@ def member_path(cx, n):
 def bitfield_load(cx, n, ty):
     """q->bits where the member is a bit-field: load the bytes that hold it, shift, mask"""
     mp = member_path(cx, n)
+    basee = None
     if mp is None:
-        return None
-    base, sty, path = mp
+        # x.bits where x is an array element chosen at run time
+        b0 = (n.get("inner") or [{}])[0]
+        while b0.get("kind") == "ParenExpr" and b0.get("inner"):
+            b0 = b0["inner"][0]
+        if n.get("isArrow") or b0.get("kind") != "ArraySubscriptExpr":
+            return None
+        basee = addr_of(cx, b0)
+        if basee is None:
+            return None
+        sty, path = qual(b0.get("type")), n.get("name")
+    else:
+        base, sty, path = mp
+        basee = expr(cx, base)
     v = cx.bitfield(sty, path)
     if v is None or v < 0:
         return None
@@ -167,24 +179,36 @@ def bitfield_load(cx, n, ty):
     nbits = 8 if shift + width <= 8 else 16 if shift + width <= 16 else 32 if shift + width <= 32 else None
     if nbits is None or width == 0:
         return None
-    load = "(CLoad (mkty false %d) (CBin OAdd s64 %s (CLit s64 %d)))" % (nbits, expr(cx, base), byteoff)
+    load = "(CLoad (mkty false %d) (CBin OAdd s64 %s (CLit s64 %d)))" % (nbits, basee, byteoff)
     return "(CCast %s (CBin OAnd u32 (CBin OShr u32 (CCast u32 %s) (CLit s32 %d)) (CLit u32 %d)))" % (ty, load, shift, (1 << width) - 1)
 
 
-def addr_of(cx, n):
+def addr_of(cx, n, addr_taken=False):
     """address expression of an lvalue that lives in memory the routine was handed - p[i], *p, and q->f / q->f.g where q is not
     simply a parameter or local (a pointer that was itself loaded or computed).  None: the lvalue is treated as a variable named by
     its source text (fields of the routine's own objects: `it->_frame_end`, `tags->length`, `spec.tv_sec` ...)."""
     k = n.get("kind")
     inner = n.get("inner") or []
     if k == "ParenExpr" and inner:
-        return addr_of(cx, inner[0])
+        return addr_of(cx, inner[0], addr_taken)
     if k == "ArraySubscriptExpr" and len(inner) == 2:
         base, idx = inner
         qb = qual(base.get("type"))
         bs = astq.strip(base)
-        if bs.get("kind") == "MemberExpr" and is_arr(qual(bs.get("type"))):
-            return None                      # an array member of the routine's own object: a variable
+        if (bs.get("kind") in ("MemberExpr", "DeclRefExpr")) and is_arr(qual(bs.get("type"))):
+            if astq.const_value(idx) is not None or addr_taken:
+                return None                  # (&arr[i] of an array object stays a name: it is a destination handed to a callee) a fixed element of an array object (the routine's own, or a global): a variable by its text
+            # an element chosen at run time: the address of the array object plus the scaled index - a load from the table's bytes
+            tb = cx.text(bs)
+            aq = qual(bs.get("type"))
+            eq_ = aq[:aq.rindex("[")].strip()
+            sz = cx.sizeof(eq_)
+            if tb is None or sz is None:
+                return None
+            ie = "(CCast s64 %s)" % expr(cx, idx)
+            if sz != 1:
+                ie = "(CBin OMul s64 %s (CLit s64 %d))" % (ie, sz)
+            return "(CBin OAdd s64 (CVar u64 %s) %s)" % (coq_s("&" + tb), ie)
         if not is_ptr(qb):
             return None
         sz = cx.sizeof(qb[:-1].strip())
@@ -196,6 +220,17 @@ def addr_of(cx, n):
         return "(CBin OAdd s64 %s %s)" % (expr(cx, base), ie)
     if k == "UnaryOperator" and n.get("opcode") == "*" and inner:
         return expr(cx, inner[0])
+    if k == "MemberExpr" and inner and not n.get("isArrow"):
+        # x.f where x itself lives at a computed address (an array element chosen at run time)
+        b0 = inner[0]
+        while b0.get("kind") == "ParenExpr" and b0.get("inner"):
+            b0 = b0["inner"][0]
+        if b0.get("kind") == "ArraySubscriptExpr":
+            a0 = addr_of(cx, b0)
+            if a0 is not None:
+                off = cx.offsetof(qual(b0.get("type")), n.get("name"))
+                if off is not None:
+                    return "(CBin OAdd s64 %s (CLit s64 %d))" % (a0, off)
     if k == "MemberExpr" and inner:
         mp = member_path(cx, n)
         if mp is None:
@@ -268,7 +303,7 @@ def expr(cx, n):
     if k == "UnaryOperator":
         op = n.get("opcode")
         if op == "&":
-            a = addr_of(cx, inner[0]) if inner else None
+            a = addr_of(cx, inner[0], addr_taken=True) if inner else None
             if a is not None:
                 return "(CCast u64 %s)" % a          # &p->f, &p[i] through a pointer into memory: the address itself
             t = cx.text(n)
